@@ -147,6 +147,7 @@ def val_of(entry):
 # ---------------------------------------------------------------------------------------------
 NBYTES = z3.Function("nbytes", sv.RealS, sv.IntS)
 ISMASKED = z3.Function("is_masked_array", sv.RealS, sv.BoolS)
+DROPMASK = z3.Function("without_mask", sv.RealS, sv.RealS)        # a masked payload whose mask was lost (values of masked cells exposed)
 UNITS_OF = z3.Function("units_of", sv.RealS, sv.OpaqueS)          # unit label of a payload value
 REQUANT = z3.Function("requantified", sv.RealS, sv.OpaqueS, sv.RealS)   # the magnitude of a payload under another unit label
 SHARE = z3.Function("may_share_memory", sv.RealS, sv.RealS, sv.BoolS)
@@ -194,15 +195,19 @@ def install(ex):
 
     ex.hooks.setdefault("sequence", []).append(seq_hook)
 
-    def np_stack(ex, path, args, kwargs, node):
+    def np_stack(ex, path, args, kwargs, node, masked_aware=False):
         lst = args[0]
         items = getattr(lst, "items", None)
         if items is not None and len(items) == 1:
-            return ex.expect(items[0], sv.SPay, path, node)
+            y = ex.expect(items[0], sv.SPay, path, node)
+            if masked_aware:
+                return y
+            # numpy.stack of masked slices does not carry the mask over (numpy.ma.stack does): a masked payload loses its mask
+            return sv.SPay(If(ISMASKED(y.e), DROPMASK(y.e), y.e), getattr(y, "units", None))
         raise Unsupported("np.stack of a list that is not a single time slice", node)
 
     ex.ext_models["numpy.stack"] = np_stack
-    ex.ext_models["numpy.ma.stack"] = np_stack
+    ex.ext_models["numpy.ma.stack"] = lambda ex, path, args, kwargs, node: np_stack(ex, path, args, kwargs, node, masked_aware=True)
 
     def may_share(ex, path, args, kwargs, node):
         a, b = args
